@@ -261,6 +261,15 @@ def replay_case(ctx, case, par, r, sweeps, seed):
                     hid["fp"] = pool.fingerprint(hid)
                     m2 = m(e["obj"])
                     new = (m2, "model", {}, e["v"], {"din": d})
+                elif act == "bad_call":
+                    # malformed calls are refused (C01); a refused call must not leave anything behind
+                    for bad in (lambda: e["obj"](zz_unknown_variable=np.ones(1)),
+                                lambda: e["obj"].logd(zz_unknown_variable=np.ones(1)),
+                                lambda: e["obj"](np.ones(1), np.ones(1), np.ones(1), np.ones(1), np.ones(1), np.ones(1))):
+                        try:
+                            bad()
+                        except Exception:
+                            pass
                 elif act == "logd":
                     pool.fingerprint(e)
                 elif act == "gradient":
@@ -342,7 +351,7 @@ def run(ctx):
         ctx.case(("objhist", str(par), r, str(c["hist"])))
         replay_case(ctx, c, par, r, sweeps if i % 7 == 0 else 5, 9000 + ctx.seed)
     need = {"action/condition", "action/to_likelihood", "action/copy_enable_fd", "action/apply_model", "action/logd",
-            "action/gradient", "action/sample", "action/run_sampler", "action/gibbs", "action/cond_factor", "action/mutate_copy"}
+            "action/gradient", "action/sample", "action/run_sampler", "action/gibbs", "action/cond_factor", "action/mutate_copy", "action/bad_call"}
     if not need <= set(ctx.facets):
         raise MachineryError("vacuous replay: actions never exercised: %s" % sorted(need - set(ctx.facets)))
     ctx.sample({"behaviour": plan[0]})
